@@ -156,6 +156,15 @@ CHECKS["C12"] = dict(engine="names", ref="DESIGN.md 5/C12",
           "must be served, readable, listable, with vanished versions reported as external."),
     technique="TLA+ reference definition of qualified-name grammar (law checked by TLC) + TLC trace validation of parses, look-ups and cross-process evolutions")
 
+CHECKS["C18"] = dict(engine="config", ref="DESIGN.md 5/C18",
+    text=("ConfigDef.tla defines Effective (explicit argument over configuration over default), Resolve (first repository in priority "
+          "order or nothing) and Behaviour (the observable effect of every option); TLC checks the override / honoured / dump-load / "
+          "first-repository laws over the option matrix; random and single-option environments are realised as constructor arguments, "
+          "inline dict, JSON files, YAML template with parameter and Environment(env.to_dict()), every cluster name is probed "
+          "behaviourally (executes, stored, where files appear, served after files are wiped, forget rejected, which repository's "
+          "store received the data) and TLC validates each probe against ConfigMon."),
+    technique="TLA+ reference definition of option resolution and its behavioural meaning (laws checked by TLC) + TLC trace validation of behavioural probes")
+
 NOT_YET = {
 }
 
@@ -194,6 +203,8 @@ def main():
             "add_only": True,
         },
         "engines": [
+            {"name": "config", "path": "harness/check_config.py", "serves_properties": ["C18"],
+             "kind_free_text": "spec/ConfigDef.tla + Config.tla + ConfigMon, config_worker.py"},
             {"name": "names", "path": "harness/check_names.py", "serves_properties": ["C12"],
              "kind_free_text": "spec/QNameDef.tla + QName.tla + NamesMon, names_worker.py, ver_worker.py evolutions"},
             {"name": "argkey", "path": "harness/check_argkey.py", "serves_properties": ["C04"],
